@@ -44,7 +44,7 @@ ID = "C10"
 LEAN_TARGETS = ["RV.C10.Props", "RV.C10.Audit"]
 AUDIT = "RV/C10/Audit.lean"
 DRIVER = "drv_c10"
-CASES = {"quick": 3000, "thorough": 60000, "search": 20000}
+CASES = {"quick": 2600, "thorough": 60000, "search": 20000}
 RULE = ("random update requests (1-4 operations: INSERT/DELETE DATA, DELETE WHERE, DELETE/INSERT..WHERE with WITH / USING / "
         "USING NAMED / GRAPH templates and patterns, CLEAR, DROP, ADD, MOVE, COPY) over datasets with 0-3 named graphs "
         "(one possibly registered-but-empty, one missing), through Graph / ConjunctiveGraph / Dataset with the union "
@@ -76,7 +76,12 @@ for _i in range(90, 94):
     TERM[_i] = URIRef(f"{E}g{_i}")
 REV = {v: k for k, v in TERM.items() if not isinstance(v, Variable) and not (50 <= k < 60)}
 GNAMES = [90, 91, 92, 93]
-CGI_ID = URIRef(E + "cgdefault")
+# the IRI under which the default graph can also be named: Dataset's urn:x-rdflib:default, and the identifier the
+# harness gives to ConjunctiveGraph(identifier=…) (api "cgi").  Term 99; only used as a graph reference of
+# CLEAR / DROP / ADD / MOVE / COPY on ds / dsu / cgi, where it denotes the SAME graph as DEFAULT.
+DFLT_IRI = 99
+TERM[DFLT_IRI] = URIRef("urn:x-rdflib:default")
+CGI_ID = TERM[DFLT_IRI]
 
 
 def kind(n):
@@ -401,6 +406,10 @@ class SpecError(Exception):
     pass
 
 
+class TooBig(Exception):
+    """a request whose repeated execution feeds on its own output (hundreds of solutions): not generated"""
+
+
 class Unspecified(Exception):
     """the request leaves SPARQL's domain (a template's GRAPH variable bound to a blank node: rdflib
     allows graphs named by blank nodes, SPARQL does not) — never generated"""
@@ -550,6 +559,8 @@ def spec_op(op, G, eff_union, single_graph, fresh, info=None):
             else:
                 dflt = graph(0)
         sols = spec_where(op["where"], op.get("filter"), dflt, nmd, op.get("wmode"))
+        if len(sols) > 150:
+            raise TooBig()
         keys = [tuple(sorted(m.items())) for m in sols]
         if len(set(keys)) < len(keys):
             info["where_with_repeated_solution"] = info.get("where_with_repeated_solution", 0) + 1
@@ -571,12 +582,13 @@ def spec_op(op, G, eff_union, single_graph, fresh, info=None):
         if any(per[a][1] & per[b][0] for a in range(len(per)) for b in range(len(per)) if a != b):
             info["overlap_across_solutions"] = info.get("overlap_across_solutions", 0) + 1
     elif k in ("clear", "drop"):
-        t = op["t"]
+        t = 0 if op["t"] == DFLT_IRI else op["t"]
+        t = "DEFAULT" if t == 0 else t
         names = [0] if t == "DEFAULT" else [g for g in G if g != 0] if t == "NAMED" else list(G) if t == "ALL" else [t]
         for g in names:
             G[g] = set()
     else:
-        src, dst = op["src"], op["dst"]
+        src, dst = (0 if x == DFLT_IRI else x for x in (op["src"], op["dst"]))    # resolved graphs, not spellings
         if src != dst:
             s = set(graph(src))
             if k in ("move", "copy"):
@@ -599,14 +611,16 @@ def spec_request(case):
     failed, info = False, {}
     before = {(s, p, o, g) for g, ts in G.items() for (s, p, o) in ts}
     gone = set()          # named graphs removed by DROP / MOVE and not written to since: must not be listed
-    for op in case["ops"]:
+    # the request may be EXECUTED several times (a prepared Update run again): same operations, the dataset —
+    # and with it the supply of fresh blank nodes — threaded through; a failing execution ends the series
+    for op in case["ops"] * case.get("runs", 1):
         try:
             names_before = [g for g in G if g != 0]
             G = spec_op(op, G, eff_union, case["api"] == "graph", lambda: next(counter), info)
             if op["k"] == "drop":
                 t = op["t"]
-                gone |= set(names_before) if t in ("NAMED", "ALL") else {t} if t != "DEFAULT" else set()
-            elif op["k"] == "move" and op["src"] != op["dst"] and op["src"] != 0:
+                gone |= set(names_before) if t in ("NAMED", "ALL") else {t} if t not in ("DEFAULT", DFLT_IRI) else set()
+            elif op["k"] == "move" and op["src"] != op["dst"] and op["src"] not in (0, DFLT_IRI):
                 gone.add(op["src"])
             gone = {g for g in gone if not G.get(g)}
         except SpecError:
@@ -761,19 +775,30 @@ def run_impl(case):
     SPARQL_MOD.SPARQL_LOAD_GRAPHS = False
     try:
         top, dflt = _build(case)
-        try:
-            if case.get("prep"):      # the same request as a prepared Update object (other entry of the glue)
-                top.update(prepareUpdate(text))
-            else:
-                top.update(text)
-            err = "ok"
-        except Exception as e:  # noqa: BLE001
-            err = "error"
-            errtext = f"{type(e).__name__}: {str(e)[:120]}"
+        runs = case.get("runs", 1)
+        # the same request as a prepared Update object (other entry of the glue) — translated ONCE, executed `runs` times
+        upd = prepareUpdate(text) if case.get("prep") else text
+        err, shared = "ok", []
+        for _run in range(runs):
+            try:
+                top.update(upd)
+            except Exception as e:  # noqa: BLE001
+                err = "error"
+                errtext = f"{type(e).__name__}: {str(e)[:120]}"
+                break
+        if case.get("second") and err == "ok":
+            # … and once more on a SECOND dataset: the nodes minted there are new as well
+            top3, dflt3 = _build(case)
+            try:
+                top3.update(upd)
+                mint = lambda tp, df: {x[1] for q in _read(tp, df, api)[0] for x in q if isinstance(x, tuple)}  # noqa: E731
+                shared = sorted(mint(top, dflt) & mint(top3, dflt3))
+            except Exception:  # noqa: BLE001
+                pass
         # law `request_in_order`, evaluated on the implementation itself: the operations sent one at a time
         # (stopping at the first that raises) must leave the same dataset as the single request
         stepwise = None
-        if len(case["ops"]) > 1:
+        if len(case["ops"]) > 1 and runs == 1:
             top2, dflt2 = _build(case)
             for one in stepwise_texts(case):
                 try:
@@ -808,6 +833,9 @@ def run_impl(case):
                     f"{'raised ' + errtext if err == 'error' else 'returned normally'}")
     if len(raw) != len(set(raw)):
         viol.append("dup: dataset yields a quad twice")
+    if shared:
+        viol.append(f"fresh: executing the request on a second dataset re-used blank nodes minted for the first "
+                    f"({len(shared)} shared; request {text!r})")
     if stepwise is not None and stepwise != quads and not isoutil.iso(
             {tuple(toterm(x, True) for x in q) for q in stepwise}, {tuple(toterm(x, True) for x in q) for q in quads}):
         viol.append(f"order: request\n{text}\nleft {show_quads(quads)} but its operations sent one at a time left "
@@ -834,6 +862,14 @@ def run_impl(case):
                     f" (extra {extra}, missing {missing})")
     stats = {"ops": len(case["ops"]), "prepared_update_object": int(bool(case.get("prep"))), "api_" + api: 1, "union_" + str(bool(case["union"])): 1, "err_" + err: 1,
              "minted": len({x for q in quads for x in q if x >= 1000}), **info}
+    if case.get("runs", 1) > 1:
+        stats["executed_several_times"] = 1
+        stats["prepared_executed_several_times"] = int(bool(case.get("prep")))
+    if case.get("second"):
+        stats["also_on_second_dataset"] = 1
+    for o in case["ops"]:
+        if DFLT_IRI in (o.get("t"), o.get("src"), o.get("dst")):
+            stats["default_graph_by_iri"] = stats.get("default_graph_by_iri", 0) + 1
     if case.get("decl"):
         stats["prologue_declared"] = 1
         stats["prologue_redeclared_later"] = int(any(case["decl"][1:]))
@@ -939,9 +975,10 @@ def model_lines(case):
             lines.append(f"reg {g}")
     rendered, ids = render(case)
     lines += table_lines(ids)
-    for _d, _body, dl, ol in rendered:
-        lines += dl
-        lines.append(ol)
+    for _run in range(case.get("runs", 1)):
+        for _d, _body, dl, ol in rendered:
+            lines += dl
+            lines.append(ol)
     lines += ["err", "quads", "known"]
     return lines
 
@@ -961,9 +998,15 @@ def gen_case(rng, tier, i):
     while True:
         case = _gen_case(rng, tier, i)
         try:
-            spec_request(case)
+            try:
+                spec_request(case)
+            except TooBig:
+                if case.get("runs", 1) == 1:
+                    continue
+                case["runs"] = 1
+                spec_request(case)
             return case
-        except Unspecified:
+        except (Unspecified, TooBig):
             continue
 
 
@@ -1141,15 +1184,21 @@ def _gen_case(rng, tier, i):
         if r < 0.72:
             return gen_modify(gs)
         s = rng.random() < 0.3
+        has_iri = api in ("ds", "dsu", "cgi")       # the default graph can also be named by an IRI
         if r < 0.86:
             t = "DEFAULT" if single else rng.choice(["DEFAULT", "NAMED", "ALL"] + anyg + anyg)
             if single:
                 t = rng.choice(["DEFAULT", "DEFAULT", "ALL", "NAMED"])
+            if has_iri and rng.random() < 0.1:
+                t = DFLT_IRI
             return {"k": rng.choice(["clear", "drop"]), "silent": s, "t": t}
         if single:
             return {"k": rng.choice(["add", "move", "copy"]), "silent": s, "src": 0, "dst": 0}
         src = gname()
         dst = src if rng.random() < 0.15 else gname()
+        if has_iri and rng.random() < 0.3:          # DEFAULT ↔ <default-iri> in every combination, and with other graphs
+            src, dst = rng.choice([(0, DFLT_IRI), (DFLT_IRI, 0), (DFLT_IRI, DFLT_IRI), (DFLT_IRI, dst or 90),
+                                   (src or 90, DFLT_IRI)])
         return {"k": rng.choice(["add", "move", "copy"]), "silent": s, "src": src, "dst": dst}
 
     def gen_modify(gs):
@@ -1250,7 +1299,20 @@ def _gen_case(rng, tier, i):
     for op in ops:                                # now and then an EMPTY `GRAPH g { }` block closes the quad data / templates
         if not single and op["k"] in ("insertdata", "deletedata", "modify") and rng.random() < 0.1:
             op["eb"] = [rng.choice(anyg + ([44] if op["k"] == "modify" else []))]
-    case = {"api": api, "union": union, "init": init, "reg": reg, "ops": ops, "prep": rng.random() < 0.25}
+    case = {"api": api, "union": union, "init": init, "reg": reg, "ops": ops, "prep": rng.random() < 0.3}
+    if rng.random() < (0.5 if case["prep"] else 0.08):
+        case["runs"] = rng.choice([2, 2, 3])          # the (prepared) request executed again on the same dataset
+        if rng.random() < 0.5 and not any(kind(x) in "bt" for o in ops for f in ("q", "ins") for q in (o.get(f) or [])
+                                          for x in q[:3]):
+            for o in ops:                             # make sure there are blank nodes to mint
+                if o["k"] == "insertdata":
+                    o["q"] = o["q"] + [[50, rng.choice(pred), rng.choice(obj), o["q"][-1][3]]]
+                    break
+                if o["k"] == "modify" and o.get("ins"):
+                    o["ins"] = o["ins"] + [[rng.choice([1, 2]), rng.choice(pred), 50, o["ins"][-1][3]]]
+                    break
+    if case["prep"] and rng.random() < 0.3:
+        case["second"] = True
     if rng.random() < 0.4:
         # BASE / PREFIX before the first operation, sometimes redeclared before a later one; the IRIs of EVERY
         # operation (terms and graph names) are then written relative / prefixed where such a spelling exists
@@ -1338,6 +1400,10 @@ def _shrink(case):
         yield {**case, "union": False}
     if case.get("prep"):
         yield {**case, "prep": False}
+    if case.get("runs", 1) > 1:
+        yield {**case, "runs": case["runs"] - 1}
+    if case.get("second"):
+        yield {**case, "second": False}
     if case.get("decl"):
         yield {k_: v for k_, v in case.items() if k_ != "decl"}
         for i in range(len(case["decl"])):
